@@ -39,6 +39,8 @@ pub struct Directive {
     pub delay_ms: u64,
     pub failparse: bool,
     pub suspend: bool,
+    /// pad every NoticeResponse message text to this many bytes
+    pub notice_len: usize,
 }
 
 impl Directive {
@@ -80,6 +82,7 @@ impl Directive {
                 "delay" => d.delay_ms = v.parse().unwrap_or(0),
                 "failparse" => d.failparse = true,
                 "suspend" => d.suspend = true,
+                "noticelen" => d.notice_len = v.parse().unwrap_or(0),
                 _ => {}
             }
         }
